@@ -365,6 +365,10 @@ class Study(DAG, PickleInterface):
         :param step: A StudyStep instance to be added to the Study instance.
         """
         # Add the node to the DAG.
+        if step.real_name in self.values:
+            raise ValueError(
+                "A step named '{}' already exists in study '{}'. Step names "
+                "must be unique.".format(step.real_name, self.name))
         self.add_node(step.real_name, step)
         LOGGER.info(
             "Adding step '%s' to study '%s'...", step.name, self.name)
